@@ -1,6 +1,7 @@
 // C17 replay driver: executes every public operation of node_version64 on every flag combination and on
 // counter values around the wrap boundary; logs (op, pre, post) for TraceVersionSeq.tla.
 #include "vh_json.h"
+#include "vh_fault.h"
 using namespace yakushima;
 static node_version64_body mk(int flags, std::uint32_t vi, std::uint32_t vs) {
     node_version64_body b{}; b.init();
@@ -12,6 +13,7 @@ static node_version64_body mk(int flags, std::uint32_t vi, std::uint32_t vs) {
     return b;
 }
 int main() {
+    vh::install_fault_handlers(100);
     const std::uint32_t M = 1u << 29;
     std::uint32_t cs[] = {0, 1, 2, 1u << 28, M - 2, M - 1};
     const char* fl[] = {"ins", "spl", "deleted", "root", "border"};
